@@ -15,51 +15,58 @@ _COMMON_NOTE = ('Trusted: Verus 0.2026.09.13 + bundled Z3; the lowering rules of
 PROPS = {
     'C01': {
         'text': 'Proof, per function under contract: Verus discharges every automatic panic obligation (overflow, underflow, index, '
-                'slice boundary, unwrap, division by zero, debug_assert, unreachable) and a decreases clause for every loop of the '
-                'real functions woven into the units, for all arguments. Totality of the whole render call is not claimed: html5ever, '
-                'tree_map_reduce and the DOM match are outside the units.',
+                'slice boundary, unwrap/expect, division by zero, debug_assert, unreachable) and a decreases clause for every loop of the '
+                'real functions woven into the units, for all arguments (do_matches: partial correctness). Totality of the whole render '
+                'call is not proved: html5ever, tree_map_reduce and the DOM match are outside the units.',
         'unverified': ['html5ever/TreeSink glue, tree_map_reduce, Drop for Node, process_dom_node match, nom grammar: not under contract',
-                       'stack depth of recursive Selector::do_matches not modelled'],
+                       'termination / stack depth of recursive Selector::do_matches'],
     },
     'C02': {
         'text': 'Proof: the width invariant (line.len <= width; every emitted line <= width unless overflow allowed) is a postcondition '
-                'of every WrappedBlock operation, the sub-width arithmetic of width_minus and the table column allocation are proved '
-                'against their specs for all arguments.',
-        'unverified': ['append_subrender / append_columns_with_borders glue beyond the verified slices',
-                       'display-width additivity axiom A2'],
+                'of every WrappedBlock operation and part of the SubRenderer invariant (every finished line fits); sub-widths from '
+                'width_minus, prefixes of append_subrender, footnote lines of fmt_links, table column allocation, cell widths and the row '
+                'drawing loop (every row line has the row width) are proved against their specs for all arguments.',
+        'unverified': ['composition over the render tree (do_render_node closures)', 'display-width additivity axiom A2'],
     },
-    'C03': {'text': 'Proof for the text engine and table allocation only: flushing keeps the buffered content; cells with positive width are kept in order.',
-            'unverified': ['DOM -> render tree mapping (what is ignored / becomes a container) is not under contract']},
+    'C03': {'text': 'Proof: add_text and add_inline_text hand exactly the kept characters of the (filtered) text to the block, in order; every line '
+                    'operation of the engine keeps the buffered content; add_line / append_subrender / collapse loops only add or move whole lines; '
+                    'table cells with a positive width are kept in order.',
+            'unverified': ['DOM -> render tree mapping (what is ignored / becomes a container)', 'renderer-level content across flush_wrapping is stated per line, not as one sequence']},
     'C04': {'text': 'Proof: the greedy fit rule of flush_word and the whitespace-collapse rule of add_text are postconditions on the real functions; effective widths come from width_minus / get_wrapping_or_insert.',
             'unverified': ['reference greedy wrapper equality is stated per step (fit test), not over whole paragraphs']},
-    'C05': {'text': 'Proof: BorderHoriz operations against an abstract (bar above, bar below) view per position with full frame conditions; the glyph table is proved against the junction rule quoted from the property.',
-            'unverified': ['row-emission loop of append_columns_with_borders (closures over LinkedList)']},
-    'C06': {'text': 'Proof for allocation and cell/width assignment: sum of column widths plus separators <= width, no column below its minimum, loop terminates.',
-            'unverified': ['zipping of cell sub-renderers in render_table_row closures']},
-    'C07': {'text': 'Proof for numbering arithmetic and widths: ordered-list prefix size formula, no overflow for every i64 start, sub-renderer width from width_minus.',
-            'unverified': ['append_subrender zip with the prefix iterator']},
-    'C08': {'text': 'Proof: reference number equals the position of the link in TextRenderer.links; footnote list on/off switch; default finalise numbering.',
-            'unverified': ['sharing of the one links vector across sub-renderers holds by construction (single field), empty-link removal in process_dom_node']},
-    'C09': {'text': 'Proof of the annotation stack discipline: start_X pushes exactly one annotation, end_X pops it, add_inline_text tags text with the current stack and leaves the stack unchanged.',
-            'unverified': ['that do_render_node calls end_X for every start_X (closures given to pending2)']},
-    'C11': {'text': 'Proof: width_minus is total under allow_width_overflow and returns the same value whenever it already succeeded; every fallible WrappedBlock function returns Ok when overflow is allowed.',
-            'unverified': ['document-level bound on the overflow width (composition over the render tree)']},
-    'C12': {'text': 'Proof for the preformatted branch of the text engine: newline emits one line, tab advances to the next multiple of 8 with at least one space, width invariant kept.',
+    'C05': {'text': 'Proof: BorderHoriz operations against an abstract (bar above, bar below) view per position with full frame conditions; the glyph table against the '
+                    'junction rule quoted from the property; the join and collapse loops of append_columns_with_borders place junctions at exactly the separator / column '
+                    'offsets; every line of a row is drawn with the row width, cells in their columns.',
+            'unverified': ['the collection closure chain of append_columns_with_borders apart from its per-line step', 'render_table_tree outside the allocation slices']},
+    'C06': {'text': 'Proof for allocation and cell/width assignment: sum of column widths plus separators <= width, no column below its minimum, loop terminates; '
+                    'cells get the widths of their columns plus the separators between the drawn ones (D15 side condition).',
+            'unverified': ['zipping of cell sub-renderers in render_table_row closures', 'RenderTable::new column remapping']},
+    'C07': {'text': 'Proof for numbering arithmetic and widths: ordered-list prefix size formula, no overflow for every i64 start, common marker width, padding by display width, '
+                    'sub-renderer width from width_minus, prefix in front of every line (append_subrender).',
+            'unverified': ['the closures that connect the slices inside do_render_node']},
+    'C08': {'text': 'Proof: reference number equals the position of the link in TextRenderer.links; footnote list on/off switch; default finalise numbers footnote k with k; fmt_links line k is "[k]: target".',
+            'unverified': ['render_tree_to_string glue and empty-link removal in process_dom_node (bounded stand-in only)']},
+    'C09': {'text': 'Proof of the annotation stack discipline and of tagging: start_X pushes exactly one annotation, end_X pops it; every character that reaches the block through '
+                    'add_inline_text is tagged with the current stack (continuation tag after a <pre> wrap); new_sub_renderer copies the stack; merging keeps tags.',
+            'unverified': ['that do_render_node calls end_X for every start_X and new_sub_renderer on the innermost renderer (bounded stand-in only)']},
+    'C11': {'text': 'Proof: width_minus is total under allow_width_overflow and returns the same value whenever it already succeeded; every fallible function under contract returns Ok when overflow is allowed; an overflowing line is one wide character.',
+            'unverified': ['document-level composition over the render tree']},
+    'C12': {'text': 'Proof for the preformatted branch of the text engine: newline emits one line, tab advances to the next multiple of 8 with at least one space, pre_wrapped / continuation tag, width invariant kept.',
             'unverified': ['<pre> -> white-space: pre mapping in the DOM pass']},
-    'C13': {'text': 'Proof for the engine: in collapsing mode a whitespace character changes state only by recording one pending space when the line is non-empty and none is pending, so whitespace runs are equivalent to one space.',
-            'unverified': ['comment/span transparency in the DOM pass']},
-    'C14': {'text': 'Proof: insert_child places the marker first; flush paths keep every non-string element of the word; markers have zero width.',
-            'unverified': ['id/name extraction in process_dom_node']},
-    'C15': {'text': 'Proof: each builder method changes exactly its field(s); wrap width is min(max_wrap_width, width); pad_to only appends spaces.',
+    'C13': {'text': 'Proof for the engine: in collapsing mode a whitespace character changes state only by recording one pending space when the line is non-empty and none is pending, so whitespace runs are equivalent to one space; whitespace between blocks is ignored.',
+            'unverified': ['comment/span transparency in the DOM pass (bounded stand-in only)']},
+    'C14': {'text': 'Proof: insert_child places the marker first; flush paths keep every non-string element of the word; markers have zero width; pending markers go to the next text line exactly once and stay pending across borders.',
+            'unverified': ['id/name extraction in process_dom_node (bounded stand-in only)']},
+    'C15': {'text': 'Proof: each builder method changes exactly its field(s); wrap width is min(max_wrap_width, width); pad_to only appends spaces; strike-through filter and footnote switches follow the options.',
             'unverified': ['table border switches inside closures of render_table_row']},
-    'C16': {'text': 'Proof of prefix measurement under a decorator contract allowing arbitrary strings; TrivialDecorator returns only empty strings.',
-            'unverified': ['affix placement relies on the start/end contracts of U-SR']},
-    'C18': {'text': 'Proof for the mechanism only: styles_from_properties emits Display(None) exactly for display:none and the zero-height + hidden-overflow idiom.',
-            'unverified': ['"renders as if deleted" relation over documents']},
-    'C19': {'text': 'Proof: WithSpec::maybe_update replaces the stored value exactly when the cascade key (importance/origin rank, specificity) of the new declaration is >= the stored one, for all keys; Specificity order is lexicographic.',
-            'unverified': ['nearest-ancestor colour nesting relies on push/pop pairing in closures']},
+    'C16': {'text': 'Proof of prefix measurement by display width under a decorator contract allowing arbitrary strings; prefixes in front of every line; inline affixes reach the block verbatim outside the element\'s own filter; TrivialDecorator returns only empty strings.',
+            'unverified': ['decorator strings are spec functions of the decorator (A6: deterministic decorators)']},
+    'C18': {'text': 'Proof for the mechanism: styles_from_properties emits Display(None) exactly for display:none and the zero-height + hidden-overflow idiom; document CSS switch plumbing.',
+            'unverified': ['"renders as if deleted" relation over documents: process_dom_node early return (bounded stand-in only)']},
+    'C19': {'text': 'Proof: WithSpec::maybe_update replaces the stored value exactly when the cascade key (importance/origin rank, specificity) of the new declaration is >= the stored one, for all keys; Specificity order is lexicographic, counting saturating and recursive.',
+            'unverified': ['which rules computed_style offers to the cascade; nearest-ancestor colour nesting relies on push/pop pairing in closures']},
     'C20': {'text': 'Proof (partial correctness) that the real Selector::do_matches / matches return exactly the CSS selector semantics '
-                    '(class, id, element name, universal, child and descendant combinators as "some proper ancestor", :nth-child(an+b of S) '
+                    '(class, id, element name, universal = any element, child and descendant combinators as "some proper ancestor", :nth-child(an+b of S) '
                     'as rank among matching element siblings) over the repository\'s own DOM types; :nth-child arithmetic against the '
                     'integer-existential spec; specificity counting.',
             'unverified': ['termination of the do_matches recursion is not proved (exec_allows_no_decreases_clause)',
@@ -67,8 +74,12 @@ PROPS = {
                            'A11 tree shape delivered by html5ever: a node is among the children of its parent exactly once, fewer than 2^31 children, '
                            'parents are elements or the document, the document has no parent (axiom_tree, get_parent contract)',
                            'string comparisons on html5ever LocalName / StrTendril and str::split_whitespace are named trusted functions with uninterpreted results',
-                           'selector parsing (src/css/parser.rs) and selector lists / rule application are not under contract']},
+                           'selector parsing (src/css/parser.rs) and rule application are not under contract (bounded stand-in only)']},
 }
 
-for _p in PROPS.values():
+from .bounded import MODES as _BMODES
+for _k, _p in PROPS.items():
     _p['note'] = _COMMON_NOTE
+    if _k in _BMODES:
+        _p['text'] += (' Beside the proof, a BOUNDED stand-in (labelled bounded in the evidence, never counted as proved) exercises the driver functions '
+                       'no verifier here can ingest through the public API: ' + ', '.join(_BMODES[_k]) + ' (bounds stated in the evidence).')
